@@ -44,3 +44,7 @@ Definition chk_dims (c : list Z * list Z * list Z * (Z * Z * Z * Z) * (list Z * 
    (identity of each call's cache key, observed len(_internal_cache) after each call) *)
 Definition chk_cache (c : list Z * list Z) : bool :=
   let '(ids, sizes) := c in zl_eqb (run_sizes (fun m : Z => m) Z.eqb (fun m : Z => m) [] ids) sizes.
+
+(* acceptance of the data dims: (data dims, geometry dims, did the resampler accept them?) *)
+Definition chk_dims_ok (c : list Z * list Z * bool) : bool :=
+  let '(dims, geo, accepted) := c in Bool.eqb (geo_dims_ok dims geo) accepted.
